@@ -436,6 +436,8 @@ def main():
             failures.append(dict(property='C17', template='single node', case=f'build_dag_single of a {mode or "coroutine"} node',
                                  observed=f'is_thread_pool_needed={dag.is_thread_pool_needed} is_process_pool_needed={dag.is_process_pool_needed}',
                                  expected=f'is_thread_pool_needed={mode == "thread"} is_process_pool_needed={mode == "process"}'))
+    # the switch structure is also what C09 needs from the builder
+    failures += [dict(f_, property='C09') for f_ in failures if f_['property'] == 'C15' and 'switch' in str(f_['observed']).lower()]
     result = dict(harness='bounded/builder.py', bound='16 templates (<= 9 node classes, every mark kind, shared and nested '
                   'constructs) x parameter orders (<= 24 each) x single-defect mutations (9 kinds, every applicable position); pool flags: every '
                   'template x every node as a sync / process-tagged node, and single-node builds',
